@@ -6,6 +6,7 @@ import Hv.Vmdk
 import Hv.Hdd
 import Hv.Concat
 import HvProofs.Concat
+import HvProofs.VmdkDescRT
 namespace Hv.C10
 open Hv Hv.VmdkDesc Hv.Concat
 
@@ -16,6 +17,133 @@ theorem wiring_total :
     ∀ ty ∈ ["FLAT", "VMFS", "SPARSE", "VMFSSPARSE", "SESPARSE"],
       (parseExtentLine ("RW 2048 " ++ ty ++ " \"disk-f001.vmdk\"").toList).map (fun e => (e.type, wire e.type))
         = some (ty.toList, if ty = "FLAT" ∨ ty = "VMFS" then Wire.flat else Wire.sparse) := by
+  decide
+
+/-! ### the extent-line grammar
+
+  `parseExtentLine` is the model of `RE_EXTENT_DESCRIPTOR.search(line)` + `ExtentDescriptor.__post_init__`:
+  a generic backtracking matcher (`Hv.Regex.matchRe`, fuel-bounded) run on the AST that `harness/extract.py`
+  translates from the live pattern on every run.  `parseExtentLine_direct` (`Hv/VmdkDescEnc.lean`) is a direct
+  recursive-descent parser without regex, fuel or capture positions; it cuts the line into its written pieces
+  (`Raw`).  The two are **equal on every line** — the proof (`HvProofs/Regex.lean`, `HvProofs/VmdkDesc.lean`)
+  reads the extracted AST fuel-free (`sem_RE`; it stops compiling when the pattern changes upstream) and
+  determinises the backtracking stage by stage. -/
+
+/-- **extent_line_direct_eq**: the regex model is the direct parser, for all lines (any characters, any length) -/
+theorem extent_line_direct_eq (line : Str) : parseExtentLine line = parseExtentLine_direct line :=
+  parseExtentLine_eq_direct line
+
+/-- **extent_line_roundtrip**: for every abstract extent in the decidable class `wfExtent`
+    (access ∈ {RW, RDONLY, NOACCESS}; any sector count; type ∈ the eight kinds of the pattern; optional file name:
+    non-empty, no newline, no `"` as first or last character — spaces, `=`, `#`, inner `"`, any Unicode allowed;
+    optional start sector; optional partition uuid / device identifier: non-empty, no space character, no `"`,
+    a device identifier only after a uuid, and without a start sector the uuid is not all digits)
+    parsing the printed line gives back exactly the extent. -/
+theorem extent_line_roundtrip (e : ExtentSpec) (h : wfExtent e = true) :
+    parseExtentLine (printExtentLine e) = some e.toExtent := by
+  rw [parseExtentLine_eq_direct, parseExtentLine_direct, ← raw_line,
+    parseRaw_complete e.raw (wf_valid e h).1 (wf_valid e h).2]
+  show e.raw.toExtent e.raw.line = _
+  rw [raw_toExtent e h]
+  rfl
+
+/-- the same for pieces written with any space characters (`\s`: tab, NBSP, …) and any Unicode digits: a valid,
+    canonically written `Raw` parses to its own fields -/
+theorem extent_line_roundtrip_raw (F : Raw) (hv : F.validb = true) (hc : F.canonb = true) :
+    parseExtentLine F.line = F.toExtent F.line := by
+  rw [parseExtentLine_eq_direct, parseExtentLine_direct, parseRaw_complete F hv hc]
+
+/-- **extent_line_fields_exact** (the converse): a line the parser accepts *is* the concatenation of the pieces
+    `access \s sectors \s type [\s "name"] [\s start] [\s uuid] [\s dev]` — the whole line, in this order, single
+    space characters between them, every piece in its class (`validb`) — and the returned fields are exactly
+    these pieces: the name is the full text between the first `"` and the last one (not cut at an inner space,
+    `=`, `#` or `"`), the numbers are the base-10 values of the complete digit runs. -/
+theorem extent_line_fields_exact (line : Str) (x : Extent) (h : parseExtentLine line = some x) :
+    ∃ F : Raw, F.line = line ∧ F.validb = true ∧
+      x.raw = line ∧ x.access = F.access ∧ parseInt F.sectors = some x.sectors ∧ x.type = F.type ∧
+      x.filename = F.filename.map (fun p => stripChars ['"'] p.2) ∧
+      (match F.start with
+       | none => x.start = none
+       | some p => ∃ n, parseInt p.2 = some n ∧ x.start = some n) ∧
+      x.uuid = F.uuid.map (·.2) ∧ x.dev = F.dev.map (·.2) := by
+  rw [parseExtentLine_eq_direct, parseExtentLine_direct] at h
+  cases hp : parseRaw line with
+  | none => rw [hp] at h; cases h
+  | some F =>
+    rw [hp] at h
+    obtain ⟨hl, hv⟩ := parseRaw_sound line F hp
+    refine ⟨F, hl, hv, ?_⟩
+    have hst : pieceOk isDg F.start = true := by
+      simp only [Raw.validb, Bool.and_eq_true] at hv
+      exact hv.1.1.2
+    have hfn : namePieceOk F.filename = true := by
+      simp only [Raw.validb, Bool.and_eq_true] at hv
+      exact hv.1.1.1.2
+    simp only [Raw.toExtent] at h
+    cases hs : parseInt F.sectors with
+    | none => rw [hs] at h; cases h
+    | some n =>
+      rw [hs] at h
+      have hfn' : F.filename.map (fun p => if p.2.isEmpty then p.2 else stripChars ['"'] p.2)
+          = F.filename.map (fun p => stripChars ['"'] p.2) := by
+        cases hf : F.filename with
+        | none => rfl
+        | some p =>
+          obtain ⟨w, t⟩ := p
+          rw [hf] at hfn
+          cases t with
+          | nil => simp [namePieceOk] at hfn
+          | cons _ _ => rfl
+      rw [hfn'] at h
+      cases hF : F.start with
+      | none =>
+        rw [hF] at h
+        simp only [Option.bind_eq_bind, Option.bind_some, Option.pure_def, Option.some.injEq] at h
+        subst h
+        exact ⟨rfl, rfl, rfl, rfl, rfl, rfl, rfl, rfl⟩
+      | some p =>
+        obtain ⟨w, t⟩ := p
+        rw [hF] at h hst
+        have hne : t.isEmpty = false := (pieceOk_some hst).2.1
+        simp only [hne, Bool.false_eq_true, if_false, Option.bind_eq_bind, Option.bind_some] at h
+        cases ht : parseInt t with
+        | none => rw [ht] at h; cases h
+        | some m =>
+          rw [ht] at h
+          simp only [Option.map_some, Option.bind_some, Option.pure_def, Option.some.injEq] at h
+          subst h
+          exact ⟨rfl, rfl, rfl, rfl, rfl, ⟨m, ht, rfl⟩, rfl, rfl⟩
+
+/-- decimal digits are read back in full: `int(str(n)) = n` for the model's `parseInt` and the printer's `natDigits` -/
+theorem parseInt_natDigits (n : Nat) : parseInt (natDigits n) = some n := (natDigits_spec n).2.2
+
+/-! non-vacuity: a hosted-sparse extent whose name has spaces, `=`, `#`, an inner quote and non-ASCII characters,
+    with start sector, uuid and device identifier; a FLAT extent with offset; a ZERO extent without name -/
+def exLine1 : ExtentSpec :=
+  { access := "RW".toList, sectors := 4192256, type := "SPARSE".toList,
+    filename := some "my disk = #1 \"é\" x.vmdk".toList, start := some 0, uuid := some "part-uuid".toList,
+    dev := some "dev=1".toList }
+def exLine2 : ExtentSpec :=
+  { access := "RDONLY".toList, sectors := 8, type := "FLAT".toList, filename := some "x.vmdk".toList, start := some 0 }
+def exLine3 : ExtentSpec := { access := "NOACCESS".toList, sectors := 100, type := "ZERO".toList }
+
+example : wfExtent exLine1 = true ∧ wfExtent exLine2 = true ∧ wfExtent exLine3 = true := by decide
+
+example : printExtentLine exLine2 = "RDONLY 8 FLAT \"x.vmdk\" 0".toList := by decide
+example : printExtentLine exLine3 = "NOACCESS 100 ZERO".toList := by decide
+
+example : (parseExtentLine (printExtentLine exLine1)).map (fun x => (x.sectors, x.filename, x.start, x.uuid, x.dev))
+    = some (4192256, some "my disk = #1 \"é\" x.vmdk".toList, some 0, some "part-uuid".toList, some "dev=1".toList) := by
+  rw [extent_line_roundtrip exLine1 (by decide)]
+  rfl
+
+/-- outside the class the round trip really fails: an all-digit uuid without a start sector is read as the start sector -/
+example : (parseExtentLine_direct "RW 8 FLAT \"a\" 123".toList).map (fun x => (x.start, x.uuid)) = some (some 123, none) := by
+  decide
+
+/-- … and a `"` in a later field extends the quoted name (greedy `.+`) -/
+example : (parseExtentLine_direct "RW 8 FLAT \"a\" 5 u\"".toList).map (fun x => (x.filename, x.start))
+    = some (some "a\" 5 u".toList, none) := by
   decide
 
 /-! ### VMDK: the extent walk
